@@ -107,6 +107,26 @@ def boundary_docs():
     return [(d, [xmlgen.render(d, st)]) for d in docs]
 
 
+def cyclic_entity_docs():
+    """entity definitions that refer to themselves, directly or through up to three others, with 0-3 harmless references
+    (predefined, numeric, to an acyclic entity) standing in FRONT of the reference that closes the cycle and behind it; used in an
+    attribute value, in content and in an attribute default.  Every one of them is ill-formed (WFC: No Recursion) and none may
+    exhaust the stack."""
+    out = []
+    pre_opts = ["", "&lt;", "&#65;", "&ok;", "&lt;&ok;", "x&ok;y&amp;", "&ok;&ok;&ok;"]
+    for n in (1, 2, 3, 4):
+        names = ["c%d" % i for i in range(n)]
+        for pre in pre_opts:
+            for post in ("", "&ok;", "z"):
+                decls = "<!ENTITY ok 'fine'>"
+                for i, nm in enumerate(names):
+                    decls += "<!ENTITY %s \"%s&%s;%s\">" % (nm, pre, names[(i + 1) % n], post)
+                out.append("<!DOCTYPE r [%s]><r x=\"&c0;\"/>" % decls)
+                out.append("<!DOCTYPE r [%s]><r>&c0;</r>" % decls)
+                out.append("<!DOCTYPE r [%s<!ATTLIST r d CDATA \"&c0;\">]><r/>" % decls)
+    return out
+
+
 def interaction_texts():
     """small documents built systematically (not randomly) around two kinds of neighbourhood:
     (1) the ORDER of declarations in the internal subset - an entity, attribute lists (two for one element type, one of them
